@@ -17,7 +17,7 @@ import (
 
 // ---- (1) operator handlers over documents of every root kind, incl. empty ones, with symbolic indices ----
 
-var c11Docs = []string{"null", "scalar-int", "scalar-str", "empty-seq", "empty-map", "seq-ints", "seq-mixed-numbers", "map", "seq-of-maps", "nested", "seq-with-null"}
+var c11Docs = []string{"null", "scalar-int", "scalar-str", "empty-seq", "empty-map", "seq-ints", "seq-mixed-numbers", "map", "seq-of-maps", "nested", "seq-with-null", "merge-inline-map", "merge-list-with-inline-map", "merge-scalar", "alias-to-scalar-as-merge"}
 
 func c11Doc(which int, x string) *CandidateNode {
 	var n *yaml.Node
@@ -42,8 +42,21 @@ func c11Doc(which int, x string) *CandidateNode {
 		n = vSeq(vMap(vStr("a"), vInt(x)), vMap(vStr("a"), vInt("0"), vStr("b"), vNull()))
 	case 9:
 		n = vMap(vStr("a"), vSeq(vInt(x), vSeq(vInt("2"))), vStr("b"), vMap(vStr("c"), vNull()))
-	default:
+	case 10:
 		n = vSeq(vNull(), vInt(x))
+	case 11: // `<<: {b: 1}`: a merge key whose value is a mapping written in place, not an alias
+		n = vMap(vStr("a"), vMap(&yaml.Node{Kind: yaml.ScalarNode, Tag: "!!merge", Value: "<<"}, vMap(vStr("b"), vInt(x)), vStr("c"), vInt("2")))
+	case 12: // `<<: [*m, {b: 1}]`
+		m := vMap(vStr("d"), vInt("4"))
+		m.Anchor = "m"
+		n = vMap(vStr("m"), m, vStr("a"), vMap(&yaml.Node{Kind: yaml.ScalarNode, Tag: "!!merge", Value: "<<"},
+			vSeq(&yaml.Node{Kind: yaml.AliasNode, Value: "m", Alias: m}, vMap(vStr("b"), vInt(x))), vStr("c"), vInt("2")))
+	case 13: // `<<: 5`
+		n = vMap(vStr("a"), vMap(&yaml.Node{Kind: yaml.ScalarNode, Tag: "!!merge", Value: "<<"}, vInt(x)))
+	default: // `<<: *s` where s anchors a scalar
+		sc := vInt(x)
+		sc.Anchor = "s"
+		n = vMap(vStr("s"), sc, vStr("a"), vMap(&yaml.Node{Kind: yaml.ScalarNode, Tag: "!!merge", Value: "<<"}, &yaml.Node{Kind: yaml.AliasNode, Value: "s", Alias: sc}))
 	}
 	return vDoc(n)
 }
@@ -72,6 +85,9 @@ func VerifC11Operators() {
 	// indices are solver variables where the document is (or may become) a sequence; against maps an index is
 	// matched as a key pattern, which needs its digits: there a few concrete values are used instead
 	seqLike := d == 0 || d == 3 || d == 5 || d == 6 || d == 8 || d == 10
+	if d >= 11 && e%4 != 0 && !strings.Contains(c11Exprs[e], "explode") && !strings.Contains(c11Exprs[e], "..") && !strings.Contains(c11Exprs[e], ".a") {
+		return // merge-key documents: a quarter of the expressions plus everything that explodes, recurses or reads .a
+	}
 	idx := func(name string) string {
 		if seqLike && !strings.Contains(c11Exprs[e], ".a[") && !strings.Contains(c11Exprs[e], "\"a\", 777") {
 			return verifItoa(int64(verifIntRange(name, -5, 5)))
